@@ -5,9 +5,11 @@ import (
 
 	"github.com/glebziz/fs_db"
 	"github.com/glebziz/fs_db/internal/model"
+	"github.com/glebziz/fs_db/internal/verifhook"
 )
 
 func (r *Repo) Oldest(_ context.Context) (model.Transaction, error) {
+	verifhook.At("reg.oldest")
 	it := r.storage.Iter()
 	if !it.Next() {
 		return model.Transaction{}, fs_db.ErrTxNotFound
